@@ -64,6 +64,9 @@ func VerifC16MigrateBalance() {
 	_, ver := vRead("balance", "version")
 	vAssert(ver.(int) == cur, "C16/contract-reports-the-repository-version")
 	vAssert(balOf(user) == x && balOf(other) == z && balOf(lock) == y && supply() == x+y+z, "C16/migration-preserves-balances-and-supply")
+	// the same state under C01 (this harness is also registered there): after an upgrade from ANY supported
+	// version the supply is the sum of the balances, and it stays so after a transfer and the ticks below
+	vAssert(balOf(user)+balOf(other)+balOf(lock) == supply() && supply() == x+y+z, "C01/sum-equals-supply")
 	vAssert(balOf(vAcct("nobody")) == 0, "C16/migration-invents-no-balance")
 
 	// the migrated accounts are usable: a transfer moves funds between them
@@ -78,4 +81,5 @@ func VerifC16MigrateBalance() {
 	vSign(vAlphabetAcct(), true)
 	ok, _ = vInvoke("balance", "newEpoch", until)
 	vAssert(ok && balOf(lock) == 0 && balOf(user) == x-1+y && supply() == x+y+z, "C16/migration-preserves-lock-accounts")
+	vAssert(balOf(user)+balOf(other)+balOf(lock) == supply(), "C01/sum-equals-supply")
 }
